@@ -265,10 +265,45 @@ def big_params_s(draw, fn):
     return {'shape': [n, m]}
 
 
+@st.composite
+def long_params_s(draw, fn, tier):
+    """one long dimension (many rooms / rivers along it), the other kept small so that the exhaustive search stays cheap"""
+    top = 72 if tier == 'quick' else 130
+    if fn in ('rooms', 'memory_rooms'):
+        L = draw(st.integers(5, top))
+        r = draw(st.integers(1, max(1, min(14, (L - 1) // 2))))
+        W = draw(st.sampled_from([5, 7, 9]))
+        lw = draw(st.integers(1, 2))
+        shape, layout = [L, W], [r, lw]
+        if draw(st.booleans()):
+            shape, layout = shape[::-1], layout[::-1]
+        p = {'shape': shape, 'layout': layout}
+        if fn == 'memory_rooms':
+            p.update({'colors': ['RED', 'GREEN', 'BLUE'], 'num_beacons': 1, 'num_exits': draw(st.integers(2, 3))})
+        return p
+    if fn == 'crossing':
+        L = draw(st.integers(2, 20)) * 2 + 1
+        W = draw(st.sampled_from([5, 7, 9, 11, 13]))
+        shape = [L, W] if draw(st.booleans()) else [W, L]
+        return {'shape': shape, 'num_rivers': draw(st.integers(1, 9))}
+    L = draw(st.integers(5, top))
+    W = draw(st.integers(5, 8))
+    shape = [L, W] if draw(st.booleans()) else [W, L]
+    if fn == 'memory':
+        if shape[1] % 2 == 0:
+            shape[1] += 1
+        return {'shape': shape, 'colors': ['RED', 'BLUE', 'GREEN']}
+    if fn == 'empty':
+        return {'shape': shape, 'random_agent': draw(st.booleans()), 'random_exit': draw(st.booleans())}
+    if fn == 'dynamic_obstacles':
+        return {'shape': shape, 'num_obstacles': draw(st.integers(1, 8)), 'random_agent': draw(st.booleans())}
+    return {'shape': shape}
+
+
 def strat_adv(tier):
     return st.sampled_from(FUNCTIONS).flatmap(lambda fn: st.fixed_dictionaries({
-        'fn': st.just(fn), 'p': st.one_of(params_s(fn, tier), params_s(fn, tier), big_params_s(fn)), 'mode': st.sampled_from(['low', 'high']),
-        'prefix': st.sampled_from([0, 1, 2, 4, 8, 12, 24, 40, 80]), 'salt': st.integers(0, 7)}))
+        'fn': st.just(fn), 'p': st.one_of(params_s(fn, tier), params_s(fn, tier), big_params_s(fn), long_params_s(fn, tier)), 'mode': st.sampled_from(['low', 'high']),
+        'prefix': st.sampled_from([0, 1, 2, 4, 8, 12, 24, 40, 80, 200]), 'salt': st.integers(0, 7)}))
 
 
 def oracle_adv(case, ctx):
@@ -301,7 +336,7 @@ def oracle_adv(case, ctx):
     bad = malformed(fn, p, d)
     if bad:
         ctx.fail(f'{what}: malformed initial state: {"; ".join(bad[:3])}', {'kind': 'malformed', 'fn': fn})
-    ctx.ev.case(case, nt=True, classes=[fn + ':state', 'mode:' + case['mode'], 'prefix>=12' if case['prefix'] >= 12 else 'prefix<12'] + (['large_shape'] if max(p['shape']) >= 17 else []) + sorted({'api:' + a for a in rng.api}))
+    ctx.ev.case(case, nt=True, classes=[fn + ':state', 'mode:' + case['mode'], 'prefix>=12' if case['prefix'] >= 12 else 'prefix<12'] + (['large_shape'] if max(p['shape']) >= 17 else []) + (['long_shape'] if max(p['shape']) >= 31 else []) + sorted({'api:' + a for a in rng.api}))
 
 
 CHECKS = [
@@ -309,6 +344,6 @@ CHECKS = [
           rule='8 reset functions x parameters (valid by construction ~70%, unconstrained otherwise: shapes 1..12/16, layouts 1..4, counts from -1 past capacity, colour sets of 0..5 with/without NONE) x seeds',
           required=[f + ':state' for f in FUNCTIONS] + [f + ':ValueError' for f in FUNCTIONS]),
     Check('adversarial_generator', oracle_adv, strategy=strat_adv, examples={'quick': 500, 'thorough': 3000}, shards={'quick': 4, 'thorough': 16},
-          rule='the same functions and parameters with an adversarial Generator (legal extreme outcomes for the first 0-80 calls, cycling afterwards): well-formed state or ValueError',
-          required=[f + ':state' for f in FUNCTIONS] + ['mode:low', 'mode:high', 'prefix>=12', 'large_shape', 'api:integers', 'api:choice', 'api:shuffle']),
+          rule='the same functions and parameters with an adversarial Generator (legal extreme outcomes for the first 0-200 calls, cycling afterwards), also on shapes up to 33x33 and long thin ones (one dimension up to 72, thorough 130, with up to 14 rooms): well-formed state or ValueError',
+          required=[f + ':state' for f in FUNCTIONS] + ['mode:low', 'mode:high', 'prefix>=12', 'large_shape', 'long_shape', 'api:integers', 'api:choice', 'api:shuffle']),
 ]
